@@ -152,6 +152,16 @@ def histories(rng, tier):
     out.append(("chanflow-same", "agree-flow", pkg_chanflow("Celsius"), {"a.go": pkg_chanflow("Celsius")["a.go"] + "\n// edited\n"}))
     out.append(("keys-retyped", "stale-flow", pkg_keys("string"), pkg_keys("int")))
     out.append(("keys-same", "agree-flow", pkg_keys("string"), {"a.go": pkg_keys("string")["a.go"] + "\n// edited\n"}))
+    # the user takes a derive function over: v2 adds a hand-written function of the name the call already has (then the
+    # call is an ordinary call and nothing is generated for it), in a file that sorts before / after derived.gen.go, with
+    # and without another derive call left (without: the file is removed); and the reverse edit
+    for fname in ("a.go", "main.go"):
+        for other in (True, False):
+            for form in ("pointer", "slice"):
+                v1, v2 = pkg_byhand(fname, other, form)
+                out.append(("byhand-%s-%s-%s" % (fname[:-3], "other-call-left" if other else "no-call-left", form), "no-flow", v1, v2))
+                if form == "pointer":
+                    out.append(("byhand-undone-%s-%s" % (fname[:-3], "other-call" if other else "only-call"), "no-flow", v2, v1))
     # histories run with -autoname / -dedup: the second version adds a call that clashes with one the old file
     # already serves; names, generated functions AND the rewritten user files must come out as from scratch
     for flags, second in ((["-autoname"], "deriveEqual"), (["-dedup"], "deriveEqualAgain"), (["-autoname", "-dedup"], "deriveEqual")):
@@ -162,6 +172,20 @@ def histories(rng, tier):
                 v1, v2 = pkg_clash(second, t2, where)
                 out.append(("clash-%s-%s-%s" % ("".join(f[1] for f in flags), where, t2.strip("*")), "no-flow", v1, v2, flags))
     return out
+
+
+def pkg_byhand(fname, other, form):
+    """v1: `deriveEqual(a, b)` generated; v2: the same file also declares deriveEqual by hand."""
+    ty = {"pointer": "*T", "slice": "[]T"}[form]
+    head = "package hist\n\ntype T struct {\n\tA int\n\tB []string\n}\n\n"
+    use = "func same(a, b %s) bool { return deriveEqual(a, b) }\n" % ty
+    if other:
+        use += "\nfunc hashOf(a *T) uint64 { return deriveHash(a) }\n"
+    hand = "\n// deriveEqual is written by hand.\nfunc deriveEqual(a, b %s) bool { return len(os.Args) > 0 }\n" % ty
+    imp = "import \"os\"\n\n"
+    v1 = {fname: head + use}
+    v2 = {fname: "package hist\n\n" + imp + head[len("package hist\n\n"):] + use + hand}
+    return v1, v2
 
 
 def pkg_clash(second, t2, where):
@@ -231,7 +255,8 @@ def offsets(rng, n, tier):
 
 def run(rep):
     rep.cov["rule"] = ("edit histories v1->v2 over generated packages (fields retyped/added/dropped, derive calls added/removed/"
-                       "reordered/all removed, a derive result feeding another derive call with and without a change of the "
+                       "reordered/all removed, a hand-written function taking over the name of a derive call (file sorting before / after "
+                       "derived.gen.go, with and without another call left) and the reverse, a derive result feeding another derive call with and without a change of the "
                        "flowing type) x old derived.gen.go in {absent, output of v1, every sampled byte prefix of the v1 output and "
                        "of the v2 output}; distinct = distinct (history, old-file state) whose old file is non-empty")
     rep.cov["rule"] += ("; correspondence tie: G/Reload.regen run on generated flow scenarios (chains of 1-4 derive calls through "
